@@ -79,6 +79,12 @@ CHECKS["C12"] = dict(
     text="Requests.tla states which terminal result (and Committed notification) a client may read for an accepted request given what the workers did (applied with which value / rejected / dropped / ready-to-read + applied index / deadline passed / table closed); TLC judges every value read from the result channels of the real pendingProposal / pendingReadIndex / pendingConfigChange / pendingSnapshot / pendingRaftLogQuery objects (with the real queues and sync.Pool reuse, Release before and after reading) under thousands of seeded interleavings of client, step-worker, apply-worker and stopper steps, and requires exactly one terminal result per accepted request once the shard is stopped and the clocks have run.",
     note="Trusted: TLC; the rqsim driver (harness/root/rqsim_test.go). Interleavings are sampled, each mutex-protected method is one step; proposalShard.propose is one step.")
 
+CHECKS["C15"] = dict(
+    category="model_checking", design_ref="5 C15", engine="tlc+cksim",
+    technique="TLA+ spec (Chunks.tla) of the chunk receiver as oracle; TLC validation of perturbed chunk streams fed to the real transport.Chunk (chunks produced by the real sender-side splitting)",
+    text="Chunks.tla gives, for every Add/Tick, the allowed outcomes over tracked streams, temporary/final directories and notifications; TLC judges the real receiver under seeded perturbations (drop, swap, duplicate, restart, two senders and two indexes interleaved, corrupted main-file/external-file/header bytes, foreign deployment id or binary version, replica removed, GC ticks anywhere) and requires finalized files to be byte-identical to the source and described by the one notification.",
+    note="Trusted: TLC; the cksim driver (harness/transport); chunk size lowered to 1 KB through the package variable. Two recorded findings (external files and the header block are not covered by an effective checksum) are matched by signature and reported as KNOWN-FINDING.")
+
 NOT_APPLICABLE = {
     "C13": "encode/decode fidelity and size arithmetic of hand-written codecs over the numeric input space: no state/transition structure for a TLA+ specification to describe (DESIGN.md section 6)",
 }
@@ -138,6 +144,8 @@ def main():
              "kind_free_text": "TLC trace validation (LogStoreTrace) of the real log stores driven by harness/logdb/lssim_test.go incl. crash and I/O-error injection"},
             {"name": "tlc+rqsim", "path": "/verif/lib/c12.py", "serves_properties": ["C12"],
              "kind_free_text": "TLC trace validation (RequestsTrace) of the real request tables driven by harness/root/rqsim_test.go"},
+            {"name": "tlc+cksim", "path": "/verif/lib/c15.py", "serves_properties": ["C15"],
+             "kind_free_text": "TLC trace validation (ChunksTrace) of the real chunk receiver driven by harness/transport/cksim_test.go"},
             {"name": "tlc+elsim", "path": "/verif/lib/c19.py", "serves_properties": ["C19"],
              "kind_free_text": "TLC model checking of MCEntryLog + TLC trace validation (EntryLogTrace) of the real entryLog/LogReader driven by harness/logdb/elsim_test.go"},
         ],
